@@ -579,4 +579,65 @@ def mon_C06(stream, case, obs):
     return hits
 
 
-MONITORS = {"C06": mon_C06, "C01": mon_C01, "C02": mon_C02, "C03": mon_C03, "C10": mon_C10, "C12": mon_C12, "C13": mon_C13, "C16": mon_C16}
+def mon_C08(stream, case, obs):
+    """keep-alive, evaluated on the real client's timestamps (virtual clock): pings when idle for K, closes within the
+    servicing gap after an unanswered PINGREQ is K old, never closes while PINGREQs are answered; K = 0: neither."""
+    tr = Trace(case, obs)
+    cfg = tr.cfg
+    K = cfg["ka"] * 1000
+    hits = []
+    now = 0
+    last_tx = {}          # conn -> time of last accepted byte
+    ping_at = None        # time the outstanding PINGREQ was written (current connection)
+    established = False
+    cur = 0
+    for st in tr.steps:
+        i, t, p = st["i"], st["t"], st["p"]
+        if t[0] == "cfg":
+            continue
+        if t[0] == "tick":
+            now += int(t[1])
+        sock_before = cur
+        wrote_ping = False
+        disc16 = 0
+        for it in st["items"]:
+            if it[0] == "tx":
+                last_tx[it[1]] = now
+                if it[2]["type"] == "PINGREQ":
+                    wrote_ping = True
+                    if K == 0:
+                        hits.append((i, "k0-ping", "PINGREQ written although keepalive is 0"))
+            elif it[0] == "ev" and it[1].startswith("on_disconnect:16"):
+                disc16 += 1
+                if K == 0:
+                    hits.append((i, "k0-timeout", "keep-alive timeout reported although keepalive is 0"))
+        cur = int(p.get("sock", "0"))
+        if cur != sock_before:
+            ping_at = None
+            established = False
+        if t[0] == "rx" and t[1] == "connack" and t[3] == "0" and cur and cur == sock_before and p.get("st") == "connected":
+            established = True
+        if t[0] == "rx" and t[1] == "pingresp" and sock_before and cur == sock_before:
+            ping_at = None
+        if K > 0 and t[0] == "loop_misc" and sock_before:
+            idle = now - last_tx.get(sock_before, now)
+            if ping_at is not None and now - ping_at >= K:
+                # dead peer: must close now, report once, non-zero result
+                if cur == sock_before:
+                    hits.append((i, "timeout-missed", f"PINGREQ unanswered for {now - ping_at} ms (K={K}) and loop_misc() kept the connection"))
+                elif disc16 != 1:
+                    hits.append((i, "timeout-report", f"keep-alive timeout reported {disc16} times through on_disconnect"))
+                elif not any(e.startswith("ret:") and e != "ret:0" for e in st["evs"]) or p.get("st") == "connected":
+                    hits.append((i, "timeout-result", f"keep-alive timeout: loop_misc result {st['evs']} state {p.get('st')}"))
+            elif established and ping_at is None and idle >= K and p.get("st") in ("connected", "lost", "disconnected", "disconnecting"):
+                blocked = p.get("ww") == "1"
+                if not wrote_ping and not blocked and cur == sock_before:
+                    hits.append((i, "ping-missed", f"idle for {idle} ms >= K={K} on an established connection and no PINGREQ was written"))
+            elif disc16 and (ping_at is None or now - ping_at < K) and established:
+                hits.append((i, "spurious-timeout", f"connection closed for keep-alive although no PINGREQ was unanswered for K (outstanding since {ping_at}, now {now})"))
+        if wrote_ping and cur == sock_before:
+            ping_at = now
+    return hits
+
+
+MONITORS = {"C06": mon_C06, "C08": mon_C08, "C01": mon_C01, "C02": mon_C02, "C03": mon_C03, "C10": mon_C10, "C12": mon_C12, "C13": mon_C13, "C16": mon_C16}
